@@ -1,5 +1,5 @@
 (* The text of the code that Model/SCP.v mirrors, statement by statement (docstrings and comments dropped):
-   SCPConnection.send_scp_burst, SCPConnection.send_scp and seqs of rig/machine_control/scp_connection.py as they
+   SCPConnection.send_scp_burst, SCPConnection.send_scp, SCPConnection.__init__ and seqs of rig/machine_control/scp_connection.py as they
    were when the model was last read against them.  Generated/GenSCPShape.v is re-extracted from /repo on every
    run; Props/C06.v (C06_source_shape) states that the two agree, so any edit of these functions breaks that
    obligation until the model has been re-read (and this file updated).  Definitions only. *)
@@ -85,6 +85,14 @@ Definition mirrored_send_scp : list (nat * string) :=
    (1%nat, "self.send_scp_burst(buffer_size, 1, packets)"%string);
    (1%nat, "assert callback.packet is not None"%string);
    (1%nat, "return callback.packet"%string)].
+(* rig/machine_control/scp_connection.py : SCPConnection.__init__, line 54 *)
+Definition mirrored_init : list (nat * string) :=
+  [(0%nat, "def __init__(self, spinnaker_host, port=consts.SCP_PORT, n_tries=5, timeout=0.5):"%string);
+   (1%nat, "self.default_timeout = timeout"%string);
+   (1%nat, "self.sock = socket.socket(socket.AF_INET, socket.SOCK_DGRAM)"%string);
+   (1%nat, "self.sock.connect((spinnaker_host, port))"%string);
+   (1%nat, "self.n_tries = n_tries"%string);
+   (1%nat, "self.seq = seqs()"%string)].
 (* rig/machine_control/scp_connection.py : seqs, line 429 *)
 Definition mirrored_seqs : list (nat * string) :=
   [(0%nat, "def seqs(mask=65535):"%string);
